@@ -136,13 +136,13 @@ class Walker:
                         return None
         return None
 
-    def walk(self, val):
+    def walk(self, val, start=0, stop=None):
         f = self.f
         env = {}
         events = []
         ver = {}
         mem = {}
-        bb = 0
+        bb = start
         steps = 0
         trace = []
         while True:
@@ -151,6 +151,8 @@ class Walker:
                 raise ShapeError('loop or too many steps in %s' % f.key)
             if self.cut_loops and bb in trace:
                 return ('cut', bb), events, trace
+            if stop is not None and bb in stop and trace:
+                return ('stop', bb), events, trace
             trace.append(bb)
             b = f.blocks[bb]
             for st in b['s']:
@@ -240,7 +242,7 @@ class Walker:
             return ('c', (0 if x else 1) if neg else x)
         return ('s', ('not ' if neg else '') + r[1])
 
-    def leaves(self, limit=200000):
+    def leaves(self, limit=200000, start=0, stop=None):
         """decision tree: list of (valuation dict, ret, events, trace)"""
         out = []
         stack = [dict()]
@@ -251,7 +253,7 @@ class Walker:
             if n > limit:
                 raise ShapeError('decision tree too large in %s' % self.f.key)
             try:
-                ret, ev, tr = self.walk(val)
+                ret, ev, tr = self.walk(val, start, stop)
             except NeedAtom as e:
                 dom = list(dict.fromkeys(e.domain))
                 # bool atoms switch on 0 with otherwise = true
